@@ -134,6 +134,7 @@ def run(pid, tier, seed, replay):
     cases = []
     for _ in range(1500 if quick else 12000):
         d = definition(rng)
+        rt.lines = []          # (callbacks of driven instances log into the shared recorder; nothing reads it here)
         b = harness.Built(rt, d)
         sd = spec_def(d)
         try:
